@@ -136,6 +136,19 @@ def check_dot(out, top, info, text):
         return
     out.count('clusters matched with nested schedulers', len(subs))
     cluster_graph = {s.name: s for s in subs}
+
+    def effective(sub):
+        """DOT semantics: a subgraph starts with a copy of the graph attributes
+        of the enclosing (sub)graph; what it does not set itself is inherited"""
+        chain = []
+        x = sub
+        while x is not None:
+            chain.append(x)
+            x = x.parent
+        attrs = {}
+        for x in reversed(chain):
+            attrs.update(x.attrs)
+        return attrs
     for sub in subs:
         sched = want_clusters[sub.name]
         parent = info['parent'][sched]
@@ -144,7 +157,10 @@ def check_dot(out, top, info, text):
         if got_parent != expected_parent:
             out.violation('cluster-nesting', "cluster %s sits in %s, its scheduler sits in %s"
                           % (sub.name, got_parent, expected_parent))
-        _check_style(out, sub.attrs, sched, info, is_sched=True)
+        eff = effective(sub)
+        if eff != sub.attrs:
+            out.count('clusters whose effective attributes include inherited ones')
+        _check_style(out, eff, sched, info, is_sched=True, inherited=set(eff) - set(sub.attrs))
     # nodes <-> atoms
     placed = {}
 
@@ -231,7 +247,7 @@ def _multiset(pairs):
     return d
 
 
-def _check_style(out, attrs, job, info, is_sched):
+def _check_style(out, attrs, job, info, is_sched, inherited=()):
     out.count('style/label attribute sets checked')
     want_label = "%s: %s" % (job.repr_id(), info['label'][job])
     got = attrs.get('label')
@@ -250,9 +266,12 @@ def _check_style(out, attrs, job, info, is_sched):
             out.violation('style-critical', "%s is critical but color=%r penwidth=%r"
                           % (job.name, attrs.get('color'), attrs.get('penwidth')))
     else:
-        if 'color' in attrs or attrs.get('penwidth') != '0.5':
-            out.violation('style-critical', "%s is not critical but color=%r penwidth=%r"
-                          % (job.name, attrs.get('color'), attrs.get('penwidth')))
+        if attrs.get('color', 'black') != 'black' or attrs.get('penwidth') != '0.5':
+            out.key = 'dot-cluster-inherits-color' if 'color' in inherited else None
+            out.violation('style-critical', "%s is not critical but is rendered with color=%r%s penwidth=%r"
+                          % (job.name, attrs.get('color'),
+                             " (inherited from the enclosing cluster)" if 'color' in inherited else "",
+                             attrs.get('penwidth')))
     if attrs.get('shape') != 'box':
         out.violation('style-shape', "%s: shape=%r" % (job.name, attrs.get('shape')))
 
